@@ -1,6 +1,6 @@
 /-
-  Property C01 — PLACEHOLDER while the full theorem file (see /verif/lean/stmts) is being proved:
-  only the rollback clause is here.  Replaced by the complete file as soon as it checks.
+  Property C01 — approvals need threshold-weight signatures from a live signer set.
+  Statements are FIXED: prove them exactly as stated (helper lemmas go above them or in Cgp/Proofs/C01.lean).
 -/
 import Cgp.GatewaySpec
 namespace Cgp.Props.C01
@@ -8,10 +8,366 @@ open Cgp Cgp.Xdr Cgp.Gateway
 
 variable (H : Bytes → Bytes) {σ : Type} (V : Bytes → Bytes → σ → Bool)
 
+
+/-! ### helpers -/
+
+theorem loop_iff_aux (digest : Bytes) (thr : Nat) (ps : List (PSigner σ)) :
+    ∀ total, total < thr →
+      (validateSignaturesLoop V digest thr ps total = .ok true ↔
+        ∃ k, k ≤ ps.length ∧ AllSigsValid V digest (ps.take k) ∧
+          thr ≤ total + signedWeight (ps.take k) ∧ total + signedWeight (ps.take k) < two128) := by
+  induction ps with
+  | nil =>
+    intro total ht
+    simp only [validateSignaturesLoop, List.take_nil, signedWeight, List.length_nil]
+    constructor
+    · intro h; cases h
+    · rintro ⟨k, _, _, h1, _⟩; omega
+  | cons p rest ih =>
+    intro total ht
+    constructor
+    · intro h
+      unfold validateSignaturesLoop at h
+      cases hs : p.sig with
+      | none =>
+        rw [hs] at h
+        simp only at h
+        obtain ⟨k, hk, hv, h1, h2⟩ := (ih total ht).mp h
+        refine ⟨k + 1, by simp; omega, ?_, ?_, ?_⟩
+        · intro q hq s hqs
+          simp only [List.take_succ_cons, List.mem_cons] at hq
+          rcases hq with rfl | hq
+          · rw [hs] at hqs; cases hqs
+          · exact hv q hq s hqs
+        · simp only [List.take_succ_cons, signedWeight, hs, Option.isSome_none]; simpa using h1
+        · simp only [List.take_succ_cons, signedWeight, hs, Option.isSome_none]; simpa using h2
+      | some s =>
+        rw [hs] at h
+        simp only at h
+        by_cases hV : V p.signer.key digest s = true
+        · simp only [hV, Bool.not_true, Bool.false_eq_true, if_false] at h
+          by_cases ho : total + p.signer.weight ≥ two128
+          · simp only [ho, if_true] at h; cases h
+          · simp only [ho, if_false] at h
+            by_cases hthr : total + p.signer.weight ≥ thr
+            · refine ⟨1, by simp, ?_, ?_, ?_⟩
+              · intro q hq s' hqs
+                simp only [List.take_succ_cons, List.take_zero, List.mem_singleton] at hq
+                subst hq
+                rw [hs] at hqs; cases hqs; exact hV
+              · simp only [List.take_succ_cons, List.take_zero, signedWeight, hs, Option.isSome_some, if_true]; omega
+              · simp only [List.take_succ_cons, List.take_zero, signedWeight, hs, Option.isSome_some, if_true]; omega
+            · simp only [hthr, if_false] at h
+              obtain ⟨k, hk, hv, h1, h2⟩ := (ih (total + p.signer.weight) (by omega)).mp h
+              refine ⟨k + 1, by simp; omega, ?_, ?_, ?_⟩
+              · intro q hq s' hqs
+                simp only [List.take_succ_cons, List.mem_cons] at hq
+                rcases hq with rfl | hq
+                · rw [hs] at hqs; cases hqs; exact hV
+                · exact hv q hq s' hqs
+              · simp only [List.take_succ_cons, signedWeight, hs, Option.isSome_some, if_true]; omega
+              · simp only [List.take_succ_cons, signedWeight, hs, Option.isSome_some, if_true]; omega
+        · simp only [hV, Bool.not_false, if_true] at h
+          cases h
+    · rintro ⟨k, hk, hv, h1, h2⟩
+      cases k with
+      | zero => simp only [List.take_zero, signedWeight] at h1; omega
+      | succ k =>
+        simp only [List.take_succ_cons, signedWeight] at h1 h2
+        simp only [List.length_cons] at hk
+        have hv' : AllSigsValid V digest (rest.take k) := by
+          intro q hq s hqs
+          exact hv q (by simp only [List.take_succ_cons, List.mem_cons]; exact Or.inr hq) s hqs
+        unfold validateSignaturesLoop
+        cases hs : p.sig with
+        | none =>
+          simp only
+          rw [hs] at h1 h2
+          simp only [Option.isSome_none, Bool.false_eq_true, if_false, Nat.zero_add] at h1 h2
+          exact (ih total ht).mpr ⟨k, by omega, hv', h1, h2⟩
+        | some s =>
+          simp only
+          rw [hs] at h1 h2
+          simp only [Option.isSome_some, if_true] at h1 h2
+          have hV : V p.signer.key digest s = true :=
+            hv p (by simp) s hs
+          simp only [hV, Bool.not_true, Bool.false_eq_true, if_false]
+          have ho : ¬ (total + p.signer.weight ≥ two128) := by omega
+          simp only [ho, if_false]
+          by_cases hthr : total + p.signer.weight ≥ thr
+          · simp only [hthr, if_true]
+          · simp only [hthr, if_false]
+            exact (ih (total + p.signer.weight) (by omega)).mpr ⟨k, by omega, hv', by omega, by omega⟩
+
+/-- The signature loop accepts exactly when P's signature condition holds (any threshold > 0, any list). -/
+theorem validateSignatures_iff (digest : Bytes) (thr : Nat) (ps : List (PSigner σ)) (hthr : 0 < thr) :
+    validateSignaturesLoop V digest thr ps 0 = .ok true ↔ SigsOk V digest thr ps := by
+  rw [loop_iff_aux V digest thr ps 0 hthr]
+  simp only [SigsOk, Nat.zero_add]
+
+/-- the loop never answers `ok true` unless the threshold is met: it is `ok true`, `ok false`, or a trap -/
+theorem validateSignatures_sound (digest : Bytes) (thr : Nat) (ps : List (PSigner σ)) (hthr : 0 < thr)
+    (h : validateSignaturesLoop V digest thr ps 0 = .ok true) :
+    ∃ k, k ≤ ps.length ∧ AllSigsValid V digest (ps.take k) ∧ thr ≤ signedWeight (ps.take k) := by
+  obtain ⟨k, hk, hv, h1, _⟩ := (validateSignatures_iff V digest thr ps hthr).mp h
+  exact ⟨k, hk, hv, h1⟩
+
+theorem validateProof_ok_iff (st : State) (dh : Bytes) (proof : Proof σ) (b : Bool) :
+    validateProof H V st dh proof = .ok b ↔
+      ∃ e, st.epochByHash (signersHash H proof.weightedSigners) = some e ∧ e ≤ st.epoch ∧
+        st.epoch - e ≤ st.retention ∧
+        validateSignaturesLoop V (messageHashToSign H st.domain (signersHash H proof.weightedSigners) dh)
+          proof.threshold proof.signers 0 = .ok true ∧ b = (e == st.epoch) := by
+  unfold validateProof
+  simp only
+  cases he : st.epochByHash (signersHash H proof.weightedSigners) with
+  | none =>
+    simp only
+    constructor
+    · intro h; cases h
+    · rintro ⟨e, he', _⟩; cases he'
+  | some e =>
+    simp only
+    by_cases h1 : st.epoch < e
+    · simp only [h1, if_true]
+      constructor
+      · intro h; cases h
+      · rintro ⟨e', he', hle, _⟩; cases he'; omega
+    · simp only [h1, if_false]
+      by_cases h2 : st.epoch - e > st.retention
+      · simp only [h2, if_true]
+        constructor
+        · intro h; cases h
+        · rintro ⟨e', he', _, hle, _⟩; cases he'; omega
+      · simp only [h2, if_false]
+        cases hl : validateSignaturesLoop V (messageHashToSign H st.domain (signersHash H proof.weightedSigners) dh)
+            proof.threshold proof.signers 0 with
+        | error x =>
+          simp only
+          constructor
+          · intro h; cases h
+          · rintro ⟨e', _, _, _, hx, _⟩; cases hx
+        | ok r =>
+          cases r with
+          | false =>
+            simp only
+            constructor
+            · intro h; cases h
+            · rintro ⟨e', _, _, _, hx, _⟩; cases hx
+          | true =>
+            simp only
+            constructor
+            · intro h
+              cases h
+              exact ⟨e, rfl, by omega, by omega, by first | rfl | trivial, by first | rfl | trivial⟩
+            · rintro ⟨e', he', _, _, _, hb⟩
+              cases he'
+              rw [hb]
+
+/-- **operational ⇔ declarative**: a proof check succeeds exactly when `ProofValid` holds. -/
+theorem validateProof_iff (st : State) (dh : Bytes) (proof : Proof σ) (hthr : 0 < proof.threshold) :
+    (∃ b, validateProof H V st dh proof = .ok b) ↔ ProofValid H V st dh proof := by
+  unfold ProofValid
+  constructor
+  · rintro ⟨b, hb⟩
+    obtain ⟨e, he, h1, h2, hl, _⟩ := (validateProof_ok_iff H V st dh proof b).mp hb
+    exact ⟨e, he, h1, h2, (validateSignatures_iff V _ _ _ hthr).mp hl⟩
+  · rintro ⟨e, he, h1, h2, hs⟩
+    exact ⟨e == st.epoch, (validateProof_ok_iff H V st dh proof _).mpr
+      ⟨e, he, h1, h2, (validateSignatures_iff V _ _ _ hthr).mpr hs, rfl⟩⟩
+
+/-- the boolean returned says whether the proof's set is the latest one -/
+theorem validateProof_latest (st : State) (dh : Bytes) (proof : Proof σ) (b : Bool)
+    (h : validateProof H V st dh proof = .ok b) :
+    (b = true ↔ st.epochByHash (signersHash H proof.weightedSigners) = some st.epoch) := by
+  obtain ⟨e, he, _, _, _, hb⟩ := (validateProof_ok_iff H V st dh proof b).mp h
+  rw [he, hb]
+  simp
+
+/-- approval batches: accepted exactly when the proof is valid for the batch's data hash and the batch is non-empty -/
+theorem approve_ok_iff (st : State) (ms : List Message) (proof : Proof σ) (hthr : 0 < proof.threshold) :
+    (∃ r, approveMessages H V st ms proof = .ok r) ↔
+      (ProofValid H V st (approveDataHash H ms) proof ∧ ms ≠ []) := by
+  rw [← validateProof_iff H V st _ proof hthr]
+  unfold approveMessages
+  cases hv : validateProof H V st (approveDataHash H ms) proof with
+  | error x =>
+    simp only
+    constructor
+    · rintro ⟨r, hr⟩; cases hr
+    · rintro ⟨⟨b, hb⟩, _⟩; cases hb
+  | ok b =>
+    simp only
+    cases ms with
+    | nil =>
+      simp only [List.isEmpty_nil, if_true]
+      constructor
+      · rintro ⟨r, hr⟩; cases hr
+      · rintro ⟨_, h⟩; simp at h
+    | cons m ms =>
+      simp only [List.isEmpty_cons, Bool.false_eq_true, if_false]
+      exact ⟨fun _ => ⟨⟨b, rfl⟩, by simp⟩, fun _ => ⟨_, rfl⟩⟩
+
+/-- every rejected submission changes nothing (and emits nothing: the observation carries no events) -/
 theorem approve_rejected_unchanged (w : World) (ms : List Message) (proof : Proof σ) (e : Err)
     (h : (step H V w (.approve ms proof)).2 = .err e) :
     (step H V w (.approve ms proof)).1 = w := by
   simp only [step] at h ⊢
-  split <;> simp_all
+  cases ha : approveMessages H V w.st ms proof with
+  | error x => rfl
+  | ok r =>
+    rw [ha] at h
+    obtain ⟨st', evs⟩ := r
+    simp only at h
+    cases h
+
+/-- Converse clause: an honestly built proof — every attached signature genuine, the signed entries (ANY subset
+    of the signers, in any positions) weigh at least the threshold, declared weights do not overflow — from an
+    installed, retained set is accepted. -/
+theorem honest_proof_accepted (st : State) (dh : Bytes) (proof : Proof σ) (e : Nat)
+    (hinst : st.epochByHash (signersHash H proof.weightedSigners) = some e)
+    (he : e ≤ st.epoch) (hret : st.epoch - e ≤ st.retention)
+    (hvalid : AllSigsValid V (messageHashToSign H st.domain (signersHash H proof.weightedSigners) dh) proof.signers)
+    (hpos : 0 < proof.threshold)
+    (hw : proof.threshold ≤ signedWeight proof.signers)
+    (hno : signedWeight proof.signers < two128) :
+    ∃ b, validateProof H V st dh proof = .ok b := by
+  rw [validateProof_iff H V st dh proof hpos]
+  refine ⟨e, hinst, he, hret, proof.signers.length, Nat.le_refl _, ?_, ?_, ?_⟩
+  · rw [List.take_length]; exact hvalid
+  · rw [List.take_length]; exact hw
+  · rw [List.take_length]; exact hno
+
+/-! ### the digest binds domain, signer set, command kind and batch (or exhibits a collision) -/
+
+
+theorem list_map_inj {α β} (f : α → β) (hf : ∀ a b, f a = f b → a = b) :
+    ∀ (l₁ l₂ : List α), l₁.map f = l₂.map f → l₁ = l₂ := by
+  intro l₁
+  induction l₁ with
+  | nil =>
+    intro l₂ h
+    cases l₂ with
+    | nil => rfl
+    | cons _ _ => simp at h
+  | cons x xs ih =>
+    intro l₂ h
+    cases l₂ with
+    | nil => simp at h
+    | cons y ys =>
+      simp only [List.map_cons, List.cons.injEq] at h
+      rw [hf x y h.1, ih ys h.2]
+
+theorem wsigner_toSc_inj (a b : WSigner) (h : a.toSc = b.toSc) : a = b := by
+  cases a; cases b
+  simp [WSigner.toSc] at h
+  simp [h]
+
+theorem wsigner_wf (s : WSigner) (h : s.Typed) : s.toSc.WF := by
+  obtain ⟨h1, h2⟩ := h
+  simp [WSigner.toSc, ScVal.WF, ScPairs.WF, ScPairs.len, symSigner, symWeight, h1]
+  simpa [two128] using h2
+
+theorem wsigners_wf (ws : WSigners) (h : ws.Typed) : ws.toSc.WF := by
+  obtain ⟨h1, h2, h3, h4⟩ := h
+  simp only [WSigners.toSc, ScVal.WF, ScPairs.WF, ScPairs.len, ScVals.len_ofList, List.length_map,
+    ScVals.WF_ofList, List.mem_map]
+  refine ⟨by decide, by decide, by omega, by decide, ⟨h2, ?_⟩, by decide, ?_, trivial⟩
+  · rintro v ⟨s, hs, rfl⟩
+    exact wsigner_wf s (h1 s hs)
+  · simpa [two128] using h3
+
+theorem message_wf (m : Message) (h : m.Typed) : m.toSc.WF := by
+  obtain ⟨h1, h2, h3, h4, h5⟩ := h
+  simp only [Message.toSc, ScVal.WF, ScPairs.WF, ScPairs.len]
+  refine ⟨by decide, by decide, h4, by decide, h2, by decide, by omega, by decide, h3, by decide, h1, trivial⟩
+
+theorem approveData_wf (ms : List Message) (h : ∀ m ∈ ms, m.Typed) (hl : ms.length < 256 ^ 4) :
+    (approveData ms).WF := by
+  simp only [approveData, ScVal.WF, ScVals.WF, ScVals.len, ScVals.len_ofList, List.length_map,
+    ScVals.WF_ofList, List.mem_map]
+  refine ⟨by decide, ⟨by decide, by decide, trivial⟩, ⟨hl, ?_⟩, trivial⟩
+  rintro v ⟨m, hm, rfl⟩
+  exact message_wf m (h m hm)
+
+theorem rotateData_wf (ws : WSigners) (h : ws.Typed) : (rotateData ws).WF := by
+  simp only [rotateData, ScVal.WF, ScVals.WF, ScVals.len]
+  exact ⟨by decide, ⟨by decide, by decide, trivial⟩, wsigners_wf ws h, trivial⟩
+
+theorem kinds_ne (ms : List Message) (ws : WSigners) : approveData ms ≠ rotateData ws := by
+  intro h
+  simp [approveData, rotateData, symApproveMessages, symRotateSigners] at h
+
+theorem toSc_injective_signers (a b : WSigners) (h : a.toSc = b.toSc) : a = b := by
+  cases a; cases b
+  simp [WSigners.toSc] at h
+  obtain ⟨h1, h2, h3⟩ := h
+  have := list_map_inj _ wsigner_toSc_inj _ _ (ScVals.ofList_injective h2)
+  simp [*]
+
+theorem toSc_injective_message (a b : Message) (h : a.toSc = b.toSc) : a = b := by
+  cases a; cases b
+  simp [Message.toSc] at h
+  simp [h]
+
+theorem signersHash_binds (a b : WSigners) (ha : a.Typed) (hb : b.Typed)
+    (h : signersHash H a = signersHash H b) : a = b ∨ Collision H := by
+  unfold signersHash at h
+  by_cases hx : enc a.toSc = enc b.toSc
+  · exact Or.inl (toSc_injective_signers a b (enc_injective _ _ (wsigners_wf a ha) (wsigners_wf b hb) hx))
+  · exact Or.inr ⟨_, _, hx, h⟩
+
+theorem approveDataHash_binds (a b : List Message) (ha : ∀ m ∈ a, m.Typed) (hb : ∀ m ∈ b, m.Typed)
+    (hla : a.length < 256 ^ 4) (hlb : b.length < 256 ^ 4)
+    (h : approveDataHash H a = approveDataHash H b) : a = b ∨ Collision H := by
+  unfold approveDataHash at h
+  by_cases hx : enc (approveData a) = enc (approveData b)
+  · left
+    have h1 := enc_injective _ _ (approveData_wf a ha hla) (approveData_wf b hb hlb) hx
+    simp [approveData] at h1
+    exact list_map_inj _ toSc_injective_message _ _ (ScVals.ofList_injective h1)
+  · exact Or.inr ⟨_, _, hx, h⟩
+
+/-- an approval data hash can never serve as a rotation data hash (command kinds are bound) -/
+theorem command_kinds_distinct (ms : List Message) (ws : WSigners)
+    (hms : ∀ m ∈ ms, m.Typed) (hl : ms.length < 256 ^ 4) (hws : ws.Typed)
+    (h : approveDataHash H ms = rotateDataHash H ws) : Collision H := by
+  unfold approveDataHash rotateDataHash at h
+  refine ⟨_, _, ?_, h⟩
+  intro hx
+  exact kinds_ne ms ws (enc_injective _ _ (approveData_wf ms hms hl) (rotateData_wf ws hws) hx)
+
+theorem digest_binds (d d' sh sh' dh dh' : Bytes)
+    (hd : d.length = 32) (hd' : d'.length = 32) (hs : sh.length = 32) (hs' : sh'.length = 32)
+    (h : messageHashToSign H d sh dh = messageHashToSign H d' sh' dh') :
+    (d = d' ∧ sh = sh' ∧ dh = dh') ∨ Collision H := by
+  unfold messageHashToSign at h
+  by_cases hx : d ++ sh ++ dh = d' ++ sh' ++ dh'
+  · left
+    have h1 := List.append_inj hx (by simp [hd, hd', hs, hs'])
+    have h2 := List.append_inj h1.1 (by omega)
+    exact ⟨h2.1, h2.2, h1.2⟩
+  · exact Or.inr ⟨_, _, hx, h⟩
+
+/-- In a state satisfying the auth invariant, an accepted proof declares exactly a set that was installed
+    (signers, weights, threshold, nonce all as installed) — or a hash collision is exhibited. -/
+theorem accepted_set_is_installed (st : State) (hinv : GInv H st) (dh : Bytes) (proof : Proof σ) (b : Bool)
+    (htyped : proof.weightedSigners.Typed)
+    (hinst : ∀ e ws, st.setAt e = some ws → ws.Typed)
+    (h : validateProof H V st dh proof = .ok b) :
+    (∃ e, st.setAt e = some proof.weightedSigners ∧ e ≤ st.epoch ∧ st.epoch - e ≤ st.retention) ∨ Collision H := by
+  obtain ⟨e, he, h1, h2, _, _⟩ := (validateProof_ok_iff H V st dh proof b).mp h
+  obtain ⟨ws, hws, hh, _⟩ := hinv.ghost e _ (hinv.bwd e _ he)
+  rcases signersHash_binds H ws proof.weightedSigners (hinst e ws hws) htyped hh with heq | hc
+  · subst heq
+    exact Or.inl ⟨e, hws, h1, h2⟩
+  · exact Or.inr hc
+
+/-- non-vacuity: a concrete one-signer proof satisfies `SigsOk` -/
+example : SigsOk (fun _ _ (_ : Unit) => true) [] 3 [⟨⟨[1], 5⟩, some ()⟩] := by
+  refine ⟨1, by simp, ?_, ?_, ?_⟩
+  · intro p _ s _; rfl
+  · simp [signedWeight]
+  · simp [signedWeight, two128]
 
 end Cgp.Props.C01
